@@ -16,78 +16,34 @@
      [src_ok a i] (every node reachable from i through ANY child link is a
      constant, a free variable, a canonical axis, unary, binary, remap or
      apply) the result of flatten is pure-reaching.
-   - [opt_reach_pure] (2): [opt_tree] on a pure-reaching node, in a state
-     whose canonical-map targets are pure-reaching ([st_pr], separate from
-     [st_ok] of OptimizeSem.v), returns a pure-reaching node and a state that
-     is again [st_pr]; fuel 4*i+3 as in OptimizeSem.v ([opt_all_pr] gives the
-     four contexts).
-   - [optimized_helper_pr], [optimized_reach_pure] (3),
-     [optimized_reach_pure_full] (also extends / arena_wf / base_ok / liveness
-     of the result, to chain with deck_correct_topo). *)
+   - Section OptPure (2): ONE induction over opt_tree / opt_other / opt_affine /
+     opt_comm ([opt_all_pr], [opt_tree_pr]), parametric in
+       [ob] (oracle nodes admitted?), [vb] (free variables admitted?), [fl] (the value
+       of the out-of-fuel flag, which nothing here changes), [M] (a level bound),
+       [cp] / [coord] / [coord_pr] (precondition and specification of the call
+       Tree::optimized_helper makes on the components of a transformed oracle).
+     Traversed nodes satisfy [tp] (admissible along walk()'s links, components of
+     transformed oracles satisfy [cp]); results satisfy [hp ob vb] = hereditarily
+     admissible, THROUGH the coordinate trees of transformed oracles ([okids]), whose
+     underlying node is a user oracle ([plain_at]).  The canonical map is only required
+     to hold live nodes of admissible local shape with [key = key_of target]
+     ([canon_pr]): Up{} uniq's the ORIGINAL node before it knows whether a child
+     changed, so targets need not be optimised; [key_same_hp] shows that a target found
+     through an equal key is as good as the node looked up.
+   - Section OptPureFree: the instance [ob = false] gives back the former statements
+     [opt_reach_pure], [optimized_helper_pr], [optimized_reach_pure] (3),
+     [optimized_reach_pure_full] (also extends / arena_wf / base_ok / liveness of the
+     result, to chain with deck_correct_topo) and [optimized_full_flag_src].
+     The instance with oracles is OptimizePureO.v. *)
 From Coq Require Import List Arith Bool Lia Permutation.
 From LF Require Import Base.Opcode Base.Num Base.Arena Tree.Build Tree.BuildSem
-  Tree.RemapSem Tree.Flatten Tree.Optimize Eval.Deck Eval.DeckSem.
+  Tree.RemapSem Tree.Flatten Tree.Optimize Eval.Deck Eval.DeckSem Tree.ReachShape Tree.Bnd.
 Import ListNotations.
 
 (* the reachability relation of walk(): follow [kids] *)
 Inductive reach {num} (a : arena num) (root : nat) : nat -> Prop :=
 | reach_root : reach a root root
 | reach_kid n k : reach a root n -> In k (kids (getn a n)) -> reach a root k.
-
-(* ------------------------------------------------------------------ *)
-(* reachability along an arbitrary child function, and "every reachable
-   node has a given shape" *)
-Section Reach.
-  Context {num : Type}.
-  Notation node := (node num).
-  Notation arena := (arena num).
-  Variable kf : node -> list nat.
-  Variable shape : nat -> node -> Prop.
-  Hypothesis kf_wf : forall len n k, node_wf len n -> In k (kf n) -> k < len.
-
-  Inductive greach (a : arena) (root : nat) : nat -> Prop :=
-  | greach_root : greach a root root
-  | greach_kid n k : greach a root n -> In k (kf (getn a n)) -> greach a root k.
-
-  Definition all_ok (a : arena) (j : nat) : Prop := forall m, greach a j m -> shape m (getn a m).
-
-  Lemma greach_trans a r n m : greach a r n -> greach a n m -> greach a r m.
-  Proof. intros H1 H2; induction H2; [exact H1 | econstructor; eauto]. Qed.
-
-  Lemma greach_inv a r m : greach a r m ->
-    m = r \/ exists k, In k (kf (getn a r)) /\ greach a k m.
-  Proof.
-    induction 1 as [|n k Hn IH Hk]; [left; reflexivity|]. right.
-    destruct IH as [->|(k0 & Hk0 & Hr)].
-    - exists k; split; [exact Hk | constructor].
-    - exists k0; split; [exact Hk0 | econstructor; eauto].
-  Qed.
-
-  Lemma all_unfold a j :
-    all_ok a j <-> shape j (getn a j) /\ forall k, In k (kf (getn a j)) -> all_ok a k.
-  Proof.
-    split.
-    - intros H; split; [apply H; constructor|].
-      intros k Hk m Hm. apply H. eapply greach_trans; [|exact Hm].
-      econstructor; [constructor | exact Hk].
-    - intros [H1 H2] m Hm. destruct (greach_inv a j m Hm) as [->|(k & Hk & Hr)]; [exact H1|].
-      apply (H2 k Hk); exact Hr.
-  Qed.
-
-  Lemma all_kid a j k : all_ok a j -> In k (kf (getn a j)) -> all_ok a k.
-  Proof. intros H; apply (proj1 (all_unfold a j) H). Qed.
-
-  Lemma all_extends a a' : arena_wf a -> extends a a' ->
-    forall j, j < length a -> (all_ok a j <-> all_ok a' j).
-  Proof.
-    intros Hwf He j. induction j as [j IH] using lt_wf_ind. intros Hj.
-    rewrite (all_unfold a j), (all_unfold a' j), (extends_getn a a' j He Hj).
-    assert (Hk : forall k, In k (kf (getn a j)) -> k < j).
-    { intros k. apply kf_wf. apply arena_wf_nth; assumption. }
-    split; intros [H1 H2]; (split; [exact H1|]); intros k Hin; specialize (Hk k Hin);
-      apply (IH k Hk ltac:(lia)); apply H2; exact Hin.
-  Qed.
-End Reach.
 
 (* ------------------------------------------------------------------ *)
 Section Pure.
@@ -115,7 +71,7 @@ Section Pure.
   Proof. intros len n k; destruct n; simpl; intuition lia. Qed.
 
   (* pure-reaching *)
-  Definition pr (a : arena) (j : nat) : Prop := all_ok kids pshape a j.
+  Definition pr (a : arena) (j : nat) : Prop := all_ok kids (fun _ => pshape) a j.
 
   Lemma reach_greach (a : arena) r m : reach a r m <-> greach kids a r m.
   Proof. split; induction 1; econstructor; eauto. Qed.
@@ -134,7 +90,10 @@ Section Pure.
   Proof. apply all_kid. Qed.
 
   Lemma pr_extends a a' j : arena_wf a -> extends a a' -> j < length a -> pr a j -> pr a' j.
-  Proof. intros Hwf He Hj. apply (all_extends kids pshape kids_wf a a' Hwf He j Hj). Qed.
+  Proof.
+    intros Hwf He Hj.
+    apply (all_extends kids (fun _ => pshape) kids_wf (fun _ _ _ _ _ _ H => H) a a' Hwf He j Hj).
+  Qed.
 
   Lemma pr_const a j c : getn a j = NConst c -> pr a j.
   Proof. intros H. apply pr_unfold. rewrite H. split; [exact I | intros k []]. Qed.
@@ -306,11 +265,15 @@ Section Pure.
 
   Lemma src_unfold a j :
     src_ok a j <-> sshape j (getn a j) /\ forall k, In k (skids (getn a j)) -> src_ok a k.
-  Proof. apply (all_unfold skids sshape). Qed.
+  Proof. apply (all_unfold skids (fun _ => sshape)). Qed.
 
   Lemma src_extends a a' j : arena_wf a -> extends a a' -> j < length a ->
     (src_ok a j <-> src_ok a' j).
-  Proof. intros Hwf He Hj. apply (all_extends skids sshape skids_wf a a' Hwf He j Hj). Qed.
+  Proof.
+    intros Hwf He Hj. split.
+    - apply (all_extends skids (fun _ => sshape) skids_wf (fun _ _ _ _ _ _ H => H) a a' Hwf He j Hj).
+    - apply (all_extends_inv skids (fun _ => sshape) skids_wf (fun _ _ _ _ _ _ H => H) a a' Hwf He j Hj).
+  Qed.
 
   Definition lp (a : arena) (j : nat) : Prop := j < length a /\ pr a j.
 
@@ -550,81 +513,369 @@ Section OptPure.
   Notation node := (node num).
   Notation arena := (arena num).
   Notation ost := (@ost num).
-  Notation rp := (rp (num:=num)).
 
-  (* every canonical-map target is live and pure-reaching *)
-  Definition canon_pr (a : arena) (c : @canon num) : Prop := Forall (fun p => lp a (snd p)) c.
+  (* [ob]: are oracle nodes admitted?  [ob = false] gives back the pure-reaching
+     predicate [pr]; [ob = true] is what the optimiser returns for sources with
+     oracles: plain nodes, user oracles and transformed oracles whose four
+     components are again of this kind (hereditarily: [okids] follows them) *)
+  Variable ob : bool.
+  (* [vb]: are free variables admitted? *)
+  Variable vb : bool.
+  (* the value of the out-of-fuel flag, which nothing here changes *)
+  Variable fl : bool.
+
+  Definition okids (n : node) : list nat :=
+    match n with
+    | NUnary _ x => [x]
+    | NBinary _ x y => [x; y]
+    | NOracleT x y z u => [x; y; z; u]
+    | _ => []
+    end.
+
+  (* the underlying oracle of a transformed oracle is a plain (user) oracle, as
+     flatten produces them *)
+  Definition plain_at (a : arena) (u : nat) : Prop := exists k, getn a u = NOracle k.
+
+  Definition oshape (a : arena) (m : nat) (n : node) : Prop :=
+    match n with
+    | NConst _ => True
+    | NNullary VAR_X => m = idX
+    | NNullary VAR_Y => m = idY
+    | NNullary VAR_Z => m = idZ
+    | NNullary VAR_FREE => vb = true
+    | NUnary _ _ => True
+    | NBinary _ _ _ => True
+    | NOracle _ => ob = true
+    | NOracleT _ _ _ u => ob = true /\ plain_at a u
+    | _ => False
+    end.
+
+  Lemma plain_extends a a' u : extends a a' -> u < length a -> plain_at a u -> plain_at a' u.
+  Proof. intros He Hu [k Hk]. exists k. rewrite (extends_getn a a' u He Hu). exact Hk. Qed.
+
+  Lemma oshape_ext : forall a a' m, arena_wf a -> extends a a' -> m < length a ->
+    oshape a m (getn a m) -> oshape a' m (getn a m).
+  Proof.
+    intros a a' m Hwf He Hm. pose proof (arena_wf_nth a m Hwf Hm) as Hw.
+    destruct (getn a m); cbn [oshape node_wf] in *; auto.
+    intros [H1 H2]. split; [exact H1|]. apply (plain_extends a a'); auto. lia.
+  Qed.
+
+  Lemma okids_wf : forall len (n : node) k, node_wf len n -> In k (okids n) -> k < len.
+  Proof. intros len n k; destruct n; simpl; intuition lia. Qed.
+
+  Lemma kids_okids (n : node) : incl (kids n) (okids n).
+  Proof. intros q Hq. destruct n; simpl in *; auto. Qed.
+
+  (* hereditarily admissible *)
+  Definition hp (a : arena) (j : nat) : Prop := all_ok okids oshape a j.
+
+  Lemma hp_unfold a j :
+    hp a j <-> oshape a j (getn a j) /\ forall k, In k (okids (getn a j)) -> hp a k.
+  Proof. apply all_unfold. Qed.
+
+  Lemma hp_kid a j k : hp a j -> In k (okids (getn a j)) -> hp a k.
+  Proof. apply all_kid. Qed.
+
+  Lemma hp_extends a a' j : arena_wf a -> extends a a' -> j < length a -> hp a j -> hp a' j.
+  Proof. intros Hwf He Hj. apply (all_extends okids oshape okids_wf oshape_ext a a' Hwf He j Hj). Qed.
+
+  Lemma hp_unary a j op x : getn a j = NUnary op x -> hp a x -> hp a j.
+  Proof.
+    intros H Hx. apply hp_unfold. rewrite H. split; [exact I|]. intros k [<-|[]]; exact Hx.
+  Qed.
+
+  Lemma hp_binary a j op x y : getn a j = NBinary op x y -> hp a x -> hp a y -> hp a j.
+  Proof.
+    intros H Hx Hy. apply hp_unfold. rewrite H. split; [exact I|].
+    intros k [<-|[<-|[]]]; assumption.
+  Qed.
+
+  Lemma hp_leaf a j : oshape a j (getn a j) -> okids (getn a j) = [] -> hp a j.
+  Proof. intros Hs Hk. apply hp_unfold. split; [exact Hs|]. rewrite Hk. intros k []. Qed.
+
+  (* live, admissible, and within the level bound [M] *)
+  Definition lph (M : nat) (a : arena) (j : nat) : Prop :=
+    j < length a /\ hp a j /\ bnd_of a j <= M.
+
+  Lemma lph_extends M a a' j : arena_wf a -> extends a a' -> lph M a j -> lph M a' j.
+  Proof.
+    intros Hwf He (H1 & H2 & H3). pose proof (extends_length a a' He).
+    split; [lia|]. split; [eapply hp_extends; eauto|]. rewrite (bnd_extends a a' j He H1). exact H3.
+  Qed.
+
+  (* what the constructors return *)
+  Definition rph (M : nat) (a : arena) (res : arena * nat) : Prop :=
+    extends a (fst res) /\ arena_wf (fst res) /\ lph M (fst res) (snd res).
+
+  Lemma rph_of M a res : grp okids oshape a res -> bres res M -> rph M a res.
+  Proof. intros (H1 & H2 & H3 & H4) Hb. split; [exact H1|]. split; [exact H2|]. split; [exact H3|]. split; assumption. Qed.
+
+  Lemma unary_rph M a op l : arena_wf a -> lph M a l -> args op = Some 1 ->
+    rph M a (mk_unary O a op l).
+  Proof.
+    intros Hwf (Hl & Hp & Hb) Hop. apply rph_of.
+    - apply (unary_grp O okids oshape okids_wf oshape_ext); auto; try (intros; exact I); intros; reflexivity.
+    - apply unary_bnd; assumption.
+  Qed.
+
+  Lemma bin_rph M a op l r : arena_wf a -> lph M a l -> lph M a r -> args op = Some 2 ->
+    rph M a (mk_bin O a op l r).
+  Proof.
+    intros Hwf (Hl & Hpl & Hbl) (Hr & Hpr & Hbr) Hop. apply rph_of.
+    - apply (bin_grp O okids oshape okids_wf oshape_ext); auto; try (intros; exact I); intros; reflexivity.
+    - apply bin_bnd; assumption.
+  Qed.
+
+  Lemma const_rph M a c : arena_wf a -> rph M a (push a (NConst c)).
+  Proof.
+    intros Hwf. apply rph_of.
+    - apply (grp_push_const okids oshape); auto; try (intros; exact I); intros; reflexivity.
+    - apply bres_push. cbn [node_bnd]. lia.
+  Qed.
+
+  (* ---------------------------------------------------------------- *)
+  (* what the optimiser TRAVERSES: through [kids] (oracles are leaves) only
+     admissible nodes, and every transformed oracle met has components that
+     satisfy [cp], the precondition of [coord] *)
+  Variable cp : arena -> nat -> Prop.
+  Hypothesis cp_ext : forall a a' j, arena_wf a -> extends a a' -> j < length a -> cp a j -> cp a' j.
+
+  Definition kp (a : arena) (j : nat) : Prop := all_ok kids oshape a j.
+  Definition tp (a : arena) (j : nat) : Prop :=
+    kp a j /\
+    forall m x y z u, greach kids a j m -> getn a m = NOracleT x y z u ->
+      cp a x /\ cp a y /\ cp a z /\ cp a u.
+  Definition lpt (M : nat) (a : arena) (j : nat) : Prop :=
+    j < length a /\ tp a j /\ bnd_of a j <= M.
+
+  Lemma tp_kid a j k : tp a j -> In k (kids (getn a j)) -> tp a k.
+  Proof.
+    intros [H1 H2] Hk. split; [eapply all_kid; eauto|].
+    intros m x y z u Hm. apply H2. eapply greach_trans; [|exact Hm].
+    econstructor; [constructor | exact Hk].
+  Qed.
+
+  Lemma kreach_le (a : arena) j m : arena_wf a -> j < length a -> greach kids a j m -> m <= j.
+  Proof.
+    intros Hwf Hj. induction 1 as [|n k Hn IH Hk]; [lia|].
+    pose proof (kids_wf n (getn a n) k (arena_wf_nth a n Hwf ltac:(lia)) Hk). lia.
+  Qed.
+
+  Lemma kreach_ext (a a' : arena) j m : arena_wf a -> extends a a' -> j < length a ->
+    greach kids a' j m -> greach kids a j m.
+  Proof.
+    intros Hwf He Hj. induction 1 as [|n k Hn IH Hk]; [constructor|].
+    pose proof (kreach_le a j n Hwf Hj IH).
+    rewrite (extends_getn a a' n He) in Hk by lia. econstructor; eauto.
+  Qed.
+
+  Lemma tp_extends a a' j : arena_wf a -> extends a a' -> j < length a -> tp a j -> tp a' j.
+  Proof.
+    intros Hwf He Hj [H1 H2]. split.
+    - apply (all_extends kids oshape kids_wf oshape_ext a a' Hwf He j Hj). exact H1.
+    - intros m x y z u Hm Hn. pose proof (kreach_ext a a' j m Hwf He Hj Hm) as Hm'.
+      pose proof (kreach_le a j m Hwf Hj Hm') as Hle.
+      rewrite (extends_getn a a' m He) in Hn by lia.
+      pose proof (arena_wf_nth a m Hwf ltac:(lia)) as Hw. rewrite Hn in Hw. cbn [node_wf] in Hw.
+      destruct (H2 m x y z u Hm' Hn) as (C1 & C2 & C3 & C4).
+      repeat split; apply (cp_ext a a'); auto; lia.
+  Qed.
+
+  Lemma tp_shape a j : tp a j -> oshape a j (getn a j).
+  Proof. intros [H _]. apply H. constructor. Qed.
+
+  Lemma lpt_extends M a a' j : arena_wf a -> extends a a' -> lpt M a j -> lpt M a' j.
+  Proof.
+    intros Hwf He (H1 & H2 & H3). pose proof (extends_length a a' He).
+    split; [lia|]. split; [eapply tp_extends; eauto|]. rewrite (bnd_extends a a' j He H1). exact H3.
+  Qed.
+
+  Lemma kid_lpt M (a : arena) i k : arena_wf a -> lpt M a i -> In k (kids (getn a i)) ->
+    k < i /\ lpt M a k.
+  Proof.
+    intros Hwf (Hi & Hp & Hb) Hk.
+    pose proof (kids_wf i (getn a i) k (arena_wf_nth a i Hwf Hi) Hk) as Hlt.
+    split; [exact Hlt|]. split; [lia|]. split; [eapply tp_kid; eauto|].
+    destruct (getn a i) as [c|o|o x|o x y|g|x y z u|x y z t|v e t|] eqn:Hn;
+      cbn [kids] in Hk; try contradiction.
+    - destruct Hk as [<-|[]]. rewrite <- (bnd_unary a i o x Hwf Hi Hn). exact Hb.
+    - rewrite (bnd_binary a i o x y Hwf Hi Hn) in Hb. destruct Hk as [<-|[<-|[]]]; lia.
+  Qed.
+
+  (* a traversed leaf is admissible as it stands *)
+  Lemma lpt_leaf M a i : lpt M a i -> okids (getn a i) = [] -> lph M a i.
+  Proof.
+    intros (Hi & Hp & Hb) Hk. split; [exact Hi|]. split; [|exact Hb].
+    apply hp_leaf; [apply tp_shape; exact Hp | exact Hk].
+  Qed.
+
+  (* ---------------------------------------------------------------- *)
+  (* the canonical map: every entry [(k, j)] was inserted by [uniq] for the live
+     node [j] of admissible LOCAL shape, with [k = key_of j].  (Targets need not be
+     admissible all the way down: Up{} uniq's the ORIGINAL node before it knows
+     whether a child changed; such an entry can only be found again through a
+     node with the same key, i.e. the same children.) *)
+  Definition canon_pr (a : arena) (c : @canon num) : Prop :=
+    Forall (fun p => snd p < length a /\ oshape a (snd p) (getn a (snd p)) /\
+                     fst p = key_of O a (snd p)) c.
 
   Definition st_pr (st : ost) : Prop :=
-    arena_wf (st_arena st) /\ base_ok O (st_arena st) /\ canon_pr (st_arena st) (st_canon st).
+    arena_wf (st_arena st) /\ base_ok O (st_arena st) /\ canon_pr (st_arena st) (st_canon st) /\
+    st_oof st = fl.
 
-  Definition orp (a : arena) (res : ost * nat) : Prop :=
-    st_pr (fst res) /\ extends a (st_arena (fst res)) /\ lp (st_arena (fst res)) (snd res).
+  Definition orp (M : nat) (a : arena) (res : ost * nat) : Prop :=
+    st_pr (fst res) /\ extends a (st_arena (fst res)) /\ lph M (st_arena (fst res)) (snd res).
 
   Lemma st_pr_wf st : st_pr st -> arena_wf (st_arena st).
   Proof. intros H; apply H. Qed.
 
-  Lemma orp_trans a a1 res : extends a a1 -> orp a1 res -> orp a res.
+  Lemma orp_trans M a a1 res : extends a a1 -> orp M a1 res -> orp M a res.
   Proof. intros He (H1 & H2 & H3). split; [exact H1|]. split; [eapply extends_trans; eauto | exact H3]. Qed.
 
-  Lemma canon_pr_extends a a' c : arena_wf a -> extends a a' -> canon_pr a c -> canon_pr a' c.
-  Proof. intros Hwf He. apply Forall_impl. intros p. apply lp_extends; assumption. Qed.
+  Lemma key_of_extends (a a' : arena) i : extends a a' -> i < length a ->
+    key_of O a' i = key_of O a i.
+  Proof. intros He Hi. unfold key_of. rewrite (extends_getn a a' i He Hi). reflexivity. Qed.
 
-  Lemma canon_find_in c k j : canon_find O c k = Some j -> exists k', In (k', j) c.
+  Lemma canon_pr_extends a a' c : arena_wf a -> extends a a' -> canon_pr a c -> canon_pr a' c.
+  Proof.
+    intros Hwf He. pose proof (extends_length a a' He). apply Forall_impl. intros p (H1 & H2 & H3).
+    split; [lia|]. rewrite (key_of_extends a a' _ He H1).
+    split; [|exact H3]. rewrite (extends_getn a a' _ He H1). apply oshape_ext; assumption.
+  Qed.
+
+  Lemma canon_find_in c k j : canon_find O c k = Some j ->
+    exists k', In (k', j) c /\ key_eqb O k k' = true.
   Proof.
     induction c as [|[k' j'] c IH]; simpl; [discriminate|].
-    destruct (key_eqb O k k').
+    destruct (key_eqb O k k') eqn:E.
     - intros H; inversion H; subst. exists k'; auto.
-    - intros H. destruct (IH H) as (k'' & Hin). exists k''; auto.
+    - intros H. destruct (IH H) as (k'' & Hin & Hk). exists k''; auto.
   Qed.
 
-  Lemma uniq_pr st i : st_pr st -> lp (st_arena st) i -> orp (st_arena st) (uniq O st i).
+  (* two live nodes with equal keys: the same node, the same shape, or two constants *)
+  Lemma key_same_node (a : arena) i j :
+    key_eqb O (key_of O a i) (key_of O a j) = true ->
+    j = i \/ getn a j = getn a i \/
+    (exists c c', getn a i = NConst c /\ getn a j = NConst c').
   Proof.
-    intros (Hwf & Hb & Hc) Hi. unfold uniq.
-    destruct (canon_find O (st_canon st) (key_of O (st_arena st) i)) as [j|] eqn:Hf.
-    - destruct (canon_find_in _ _ _ Hf) as (k' & Hin).
-      pose proof Hc as Hc'. unfold canon_pr in Hc'. rewrite Forall_forall in Hc'.
-      specialize (Hc' _ Hin). cbn [snd] in Hc'.
-      split; [split; [exact Hwf | split; [exact Hb | exact Hc]]|].
-      cbn [fst snd]. split; [apply extends_refl | exact Hc'].
+    unfold key_of.
+    destruct (getn a i) as [c|o|o x|o x y|g|x y z u|x y z t|v e t|] eqn:Ei;
+      destruct (getn a j) as [c'|o'|o' x'|o' x' y'|g'|x' y' z' u'|x' y' z' t'|v' e' t'|] eqn:Ej;
+      try (intros _; right; right; exists c, c'; split; reflexivity);
+      repeat match goal with
+             | |- context [o_isnan O ?q] => destruct (o_isnan O q)
+             end;
+      try (match type of Ei with _ = NNullary _ => destruct o end);
+      try (match type of Ej with _ = NNullary _ => destruct o' end);
+      cbn [key_eqb]; intros Hk; try discriminate Hk.
+    all: try (right; left; reflexivity).
+    all: repeat match goal with H : _ && _ = true |- _ => apply andb_true_iff in H; destruct H end.
+    all: repeat match goal with H : opcode_eqb _ _ = true |- _ => apply opcode_eqb_eq in H end.
+    all: repeat match goal with H : Nat.eqb _ _ = true |- _ => apply Nat.eqb_eq in H end.
+    all: subst; try (right; left; reflexivity); try (left; reflexivity).
+  Qed.
+
+  Lemma key_same_hp (a : arena) i j : arena_wf a -> i < length a -> j < length a ->
+    key_eqb O (key_of O a i) (key_of O a j) = true ->
+    oshape a j (getn a j) -> hp a i -> hp a j /\ bnd_of a j = bnd_of a i.
+  Proof.
+    intros Hwf Hi Hj Hk Hs Hp.
+    destruct (key_same_node a i j Hk) as [->|[E|(c & c' & E1 & E2)]].
+    - split; [exact Hp | reflexivity].
     - split.
-      + split; [exact Hwf|]. split; [exact Hb|]. cbn [fst st_arena st_canon].
-        constructor; [exact Hi | exact Hc].
-      + cbn [fst snd st_arena]. split; [apply extends_refl | exact Hi].
+      + apply hp_unfold. split; [exact Hs|]. rewrite E. apply hp_unfold in Hp. apply Hp.
+      + rewrite (bnd_node a Hwf j Hj), (bnd_node a Hwf i Hi), E. reflexivity.
+    - split.
+      + apply hp_leaf; [exact Hs | rewrite E2; reflexivity].
+      + rewrite (bnd_node a Hwf j Hj), (bnd_node a Hwf i Hi), E1, E2. reflexivity.
   Qed.
 
-  Lemma lift_uniq_pr st res : st_pr st -> rp (st_arena st) res ->
-    orp (st_arena st) (lift_uniq O st res).
+  (* the deduplicator: always keeps the state invariant; returns an admissible node
+     whenever it is given one *)
+  Lemma uniq_st st i : st_pr st -> i < length (st_arena st) ->
+    oshape (st_arena st) i (getn (st_arena st) i) ->
+    st_pr (fst (uniq O st i)) /\ st_arena (fst (uniq O st i)) = st_arena st /\
+    snd (uniq O st i) < length (st_arena st) /\
+    (hp (st_arena st) i ->
+     hp (st_arena st) (snd (uniq O st i)) /\
+     bnd_of (st_arena st) (snd (uniq O st i)) = bnd_of (st_arena st) i).
   Proof.
-    intros (Hwf & Hb & Hc) (He & Hwf' & Hlt & Hp). unfold lift_uniq.
-    set (st' := {| st_arena := fst res; st_canon := st_canon st |}).
+    intros (Hwf & Hb & Hc & Ho) Hi Hs. unfold uniq.
+    destruct (canon_find O (st_canon st) (key_of O (st_arena st) i)) as [j|] eqn:Hf.
+    - destruct (canon_find_in _ _ _ Hf) as (k' & Hin & Hk).
+      pose proof Hc as Hc'. unfold canon_pr in Hc'. rewrite Forall_forall in Hc'.
+      destruct (Hc' _ Hin) as (Hj & Hsj & Hkj). cbn [fst snd] in *. subst k'.
+      split; [split; [exact Hwf | split; [exact Hb | split; [exact Hc | exact Ho]]]|].
+      split; [reflexivity|]. split; [exact Hj|].
+      intros Hp. apply (key_same_hp _ i j); assumption.
+    - cbn [fst snd st_arena st_canon st_oof].
+      split.
+      + split; [exact Hwf|]. split; [exact Hb|]. cbn [st_arena st_canon st_oof].
+        split; [|exact Ho]. constructor; [|exact Hc]. cbn [fst snd]. auto.
+      + split; [reflexivity|]. split; [exact Hi|]. intros Hp. auto.
+  Qed.
+
+  Lemma uniq_pr M st i : st_pr st -> lph M (st_arena st) i -> orp M (st_arena st) (uniq O st i).
+  Proof.
+    intros Hst (Hi & Hp & Hb).
+    assert (Hs : oshape (st_arena st) i (getn (st_arena st) i)) by (apply hp_unfold in Hp; apply Hp).
+    destruct (uniq_st st i Hst Hi Hs) as (H1 & H2 & H4 & H5).
+    destruct (H5 Hp) as [H6 H7].
+    split; [exact H1|]. split; [rewrite H2; apply extends_refl|].
+    rewrite H2. split; [exact H4|]. split; [exact H6 | lia].
+  Qed.
+
+  Lemma lift_uniq_pr M st res : st_pr st -> rph M (st_arena st) res ->
+    orp M (st_arena st) (lift_uniq O st res).
+  Proof.
+    intros (Hwf & Hb & Hc & Ho) (He & Hwf' & Hl). unfold lift_uniq.
+    set (st' := {| st_arena := fst res; st_canon := st_canon st; st_oof := st_oof st |}).
     assert (Hok : st_pr st').
-    { split; [exact Hwf'|]. split; cbn [st' st_arena st_canon].
+    { split; [exact Hwf'|]. split; [|split]; cbn [st' st_arena st_canon st_oof].
       - eapply base_ok_extends; eauto.
-      - exact (canon_pr_extends _ _ _ Hwf He Hc). }
-    eapply orp_trans; [exact He|]. apply (uniq_pr st' (snd res) Hok). split; assumption.
+      - exact (canon_pr_extends _ _ _ Hwf He Hc).
+      - exact Ho. }
+    eapply orp_trans; [exact He|].
+    apply (uniq_pr M st' (snd res) Hok). exact Hl.
   Qed.
 
-  Lemma bin_uniq_pr st op l r : st_pr st -> lp (st_arena st) l -> lp (st_arena st) r ->
+  Lemma bin_uniq_pr M st op l r : st_pr st -> lph M (st_arena st) l -> lph M (st_arena st) r ->
     args op = Some 2 ->
-    orp (st_arena st) (lift_uniq O st (mk_bin O (st_arena st) op l r)).
+    orp M (st_arena st) (lift_uniq O st (mk_bin O (st_arena st) op l r)).
   Proof.
-    intros Hst [Hl Hpl] [Hr Hpr] Hop. apply lift_uniq_pr; [exact Hst|].
-    apply bin_reach_pure; auto. apply Hst.
+    intros Hst Hl Hr Hop. apply lift_uniq_pr; [exact Hst|].
+    apply bin_rph; auto. apply Hst.
   Qed.
 
-  Lemma un_uniq_pr st op l : st_pr st -> lp (st_arena st) l -> args op = Some 1 ->
-    orp (st_arena st) (lift_uniq O st (mk_unary O (st_arena st) op l)).
+  Lemma un_uniq_pr M st op l : st_pr st -> lph M (st_arena st) l -> args op = Some 1 ->
+    orp M (st_arena st) (lift_uniq O st (mk_unary O (st_arena st) op l)).
   Proof.
-    intros Hst [Hl Hpl] Hop. apply lift_uniq_pr; [exact Hst|].
-    apply unary_reach_pure; auto. apply Hst.
+    intros Hst Hl Hop. apply lift_uniq_pr; [exact Hst|].
+    apply unary_rph; auto. apply Hst.
   Qed.
 
-  Lemma const_uniq_pr st c : st_pr st -> orp (st_arena st) (mk_const_uniq O st c).
+  Lemma const_uniq_pr M st c : st_pr st -> orp M (st_arena st) (mk_const_uniq O st c).
   Proof.
     intros Hst. unfold mk_const_uniq, mk_const. apply lift_uniq_pr; [exact Hst|].
-    apply rp_push_const. apply Hst.
+    apply const_rph. apply Hst.
   Qed.
+
+  (* ---------------------------------------------------------------- *)
+  (* from here on the level bound [M] is fixed *)
+  Section WithM.
+  Variable M : nat.
+  Notation lp := (lph M).
+  Notation lpt := (lpt M).
+  Notation orp := (orp M).
+  Notation lp_extends := (lph_extends M).
+  Notation lpt_extends := (lpt_extends M).
+  Notation kid_lpt := (kid_lpt M).
+  Notation uniq_pr := (uniq_pr M).
+  Notation lift_uniq_pr := (lift_uniq_pr M).
+  Notation bin_uniq_pr := (bin_uniq_pr M).
+  Notation un_uniq_pr := (un_uniq_pr M).
+  Notation const_uniq_pr := (const_uniq_pr M).
 
   Definition ids_pr (a : arena) (l : list nat) : Prop := Forall (lp a) l.
 
@@ -682,10 +933,15 @@ Section OptPure.
       + constructor; [exact Hp | apply IH; exact Hm'].
   Qed.
 
-  Lemma one_lp a : base_ok O a -> lp a idOne.
+  Lemma one_lp a : arena_wf a -> base_ok O a -> lp a idOne.
   Proof.
-    intros Hb. pose proof (base_ok_len O a Hb). split; [unfold idOne; lia|].
-    eapply pr_const. rewrite (base_getn O a idOne Hb) by (unfold idOne; lia). reflexivity.
+    intros Hwf Hb. pose proof (base_ok_len O a Hb).
+    assert (Hl : idOne < length a) by (unfold idOne; lia).
+    assert (Hg : getn a idOne = NConst (o_one O))
+      by (rewrite (base_getn O a idOne Hb) by (unfold idOne; lia); reflexivity).
+    split; [exact Hl|]. split.
+    - apply hp_leaf; rewrite Hg; [exact I | reflexivity].
+    - rewrite (bnd_node a Hwf idOne Hl), Hg. cbn [node_bnd]. lia.
   Qed.
 
   Lemma add_term_pr st m n s : st_pr st -> amap_pr (st_arena st) m -> lp (st_arena st) n ->
@@ -693,7 +949,7 @@ Section OptPure.
   Proof.
     intros (Hwf & Hb & Hc) Hm Hn. unfold add_term.
     destruct (getn (st_arena st) n); try (apply amap_add_pr; assumption).
-    apply amap_add_pr; [assumption | apply one_lp; exact Hb].
+    apply amap_add_pr; [assumption | apply one_lp; [exact Hwf | exact Hb]].
   Qed.
 
   Lemma span_mult_pr a m : forall l g rest, span_mult O m l = (g, rest) ->
@@ -872,88 +1128,123 @@ Section OptPure.
       + destruct (getn a y); try exact I. simpl; auto.
   Qed.
 
-  Lemma kid_lp (a : arena) i k : arena_wf a -> lp a i -> In k (kids (getn a i)) ->
-    k < i /\ lp a k.
-  Proof.
-    intros Hwf [Hi Hp] Hk. pose proof (kid_lt a i k Hwf Hi Hk) as Hlt.
-    split; [exact Hlt|]. split; [lia | eapply pr_kid; eauto].
-  Qed.
+  (* [coord]: Tree::optimized_helper on a component of a transformed oracle; its result
+     is admissible, within the bound of the component it was given, in an extended
+     arena, with the state invariant (out-of-fuel flag included) preserved *)
+  Variable coord : ost -> nat -> ost * nat.
+  Hypothesis coord_pr : forall st c, st_pr st -> c < length (st_arena st) -> cp (st_arena st) c ->
+    st_pr (fst (coord st c)) /\ extends (st_arena st) (st_arena (fst (coord st c))) /\
+    snd (coord st c) < length (st_arena (fst (coord st c))) /\
+    hp (st_arena (fst (coord st c))) (snd (coord st c)) /\
+    bnd_of (st_arena (fst (coord st c))) (snd (coord st c)) <= bnd_of (st_arena st) c /\
+    (plain_at (st_arena st) c -> snd (coord st c) = c).
+  Notation opt_tree := (opt_tree O coord).
+  Notation opt_other := (opt_other O coord).
+  Notation opt_affine := (opt_affine O coord).
+  Notation opt_comm := (opt_comm O coord).
 
   (* unfolding equations *)
   Lemma opt_tree_SP f st i :
-    opt_tree O (S f) st i =
+    opt_tree (S f) st i =
     match classify (st_arena st) i with
     | CAffNeg _ | CAffAdd _ _ | CAffSub _ _ | CAffMulL _ _ | CAffMulR _ _ | CAffDiv _ _ =>
-        let '(st1, m) := opt_affine O f st (o_one O) i [] in
+        let '(st1, m) := opt_affine f st (o_one O) i [] in
         rebuild_affine O st1 m
     | CComm op _ _ =>
-        let '(st1, l) := opt_comm O f st op i [] in
+        let '(st1, l) := opt_comm f st op i [] in
         fold_comm O st1 op l
-    | COther => opt_other O f st i
+    | COther => opt_other f st i
     end.
   Proof. reflexivity. Qed.
 
   Lemma opt_other_SP f st i :
-    opt_other O (S f) st i =
+    opt_other (S f) st i =
     match getn (st_arena st) i with
     | NUnary op x =>
-        let '(st1, x') := opt_tree O f st x in
+        let '(st1, x') := opt_tree f st x in
         let '(st2, self) := uniq O st1 i in
         if Nat.eqb x' x then (st2, self)
         else lift_uniq O st2 (mk_unary O (st_arena st2) op x')
     | NBinary op x y =>
-        let '(st1, y') := opt_tree O f st y in
-        let '(st2, x') := opt_tree O f st1 x in
+        let '(st1, y') := opt_tree f st y in
+        let '(st2, x') := opt_tree f st1 x in
         let '(st3, self) := uniq O st2 i in
         if Nat.eqb x' x && Nat.eqb y' y then (st3, self)
         else lift_uniq O st3 (mk_bin O (st_arena st3) op x' y')
     | NOracleT x y z u =>
         let '(st0, self) := uniq O st i in
-        let '(st1, u') := opt_tree O f st0 u in
-        let '(st2, x') := opt_tree O f st1 x in
-        let '(st3, y') := opt_tree O f st2 y in
-        let '(st4, z') := opt_tree O f st3 z in
+        let '(st1, u') := coord st0 u in
+        let '(st2, x') := coord st1 x in
+        let '(st3, y') := coord st2 y in
+        let '(st4, z') := coord st3 z in
         lift_uniq O st4 (push (st_arena st4) (NOracleT x' y' z' u'))
     | _ => uniq O st i
     end.
   Proof. reflexivity. Qed.
 
   Lemma opt_affine_SP f st s i m :
-    opt_affine O (S f) st s i m =
+    opt_affine (S f) st s i m =
     match classify (st_arena st) i with
-    | CAffNeg x => opt_affine O f st (o_neg O s) x m
+    | CAffNeg x => opt_affine f st (o_neg O s) x m
     | CAffAdd x y =>
-        let '(st1, m1) := opt_affine O f st s y m in
-        opt_affine O f st1 s x m1
+        let '(st1, m1) := opt_affine f st s y m in
+        opt_affine f st1 s x m1
     | CAffSub x y =>
-        let '(st1, m1) := opt_affine O f st (o_neg O s) y m in
-        opt_affine O f st1 s x m1
-    | CAffMulL c y => opt_affine O f st (o_mul O c s) y m
-    | CAffMulR x c => opt_affine O f st (o_mul O c s) x m
-    | CAffDiv x c => opt_affine O f st (o_div O s c) x m
+        let '(st1, m1) := opt_affine f st (o_neg O s) y m in
+        opt_affine f st1 s x m1
+    | CAffMulL c y => opt_affine f st (o_mul O c s) y m
+    | CAffMulR x c => opt_affine f st (o_mul O c s) x m
+    | CAffDiv x c => opt_affine f st (o_div O s c) x m
     | CComm op _ _ =>
-        let '(st1, l) := opt_comm O f st op i [] in
+        let '(st1, l) := opt_comm f st op i [] in
         let '(st2, n) := fold_comm O st1 op l in
         (st2, add_term O st2 m n s)
     | COther =>
-        let '(st1, n) := opt_other O f st i in
+        let '(st1, n) := opt_other f st i in
         (st1, add_term O st1 m n s)
     end.
   Proof. reflexivity. Qed.
 
   Lemma opt_comm_SP f st op i l :
-    opt_comm O (S f) st op i l =
+    opt_comm (S f) st op i l =
     match classify (st_arena st) i with
     | CComm op' x y =>
         if opcode_eqb op' op then
-          let '(st1, l1) := opt_comm O f st op y l in
-          opt_comm O f st1 op x l1
+          let '(st1, l1) := opt_comm f st op y l in
+          opt_comm f st1 op x l1
         else
-          let '(st1, n) := opt_tree O f st i in (st1, l ++ [n])
+          let '(st1, n) := opt_tree f st i in (st1, l ++ [n])
     | _ =>
-        let '(st1, n) := opt_tree O f st i in (st1, l ++ [n])
+        let '(st1, n) := opt_tree f st i in (st1, l ++ [n])
     end.
   Proof. reflexivity. Qed.
+
+  (* a plain oracle is returned as it is *)
+  Lemma key_uniq_plain (a : arena) i j k : getn a i = NOracle k ->
+    key_eqb O (key_of O a i) (key_of O a j) = true -> j = i.
+  Proof.
+    intros Hn. unfold key_of. rewrite Hn.
+    destruct (getn a j) as [c'|o'|o' x'|o' x' y'|g'|x' y' z' u'|x' y' z' t'|v' e' t'|];
+      try (destruct (o_isnan O c')); try (destruct o'); cbn [key_eqb]; intros Hk;
+      try discriminate Hk; apply Nat.eqb_eq in Hk; symmetry; exact Hk.
+  Qed.
+
+  Lemma uniq_plain st c : st_pr st -> plain_at (st_arena st) c -> snd (uniq O st c) = c.
+  Proof.
+    intros (Hwf & Hb & Hc & Ho) [k Hk]. unfold uniq.
+    destruct (canon_find O (st_canon st) (key_of O (st_arena st) c)) as [j|] eqn:Hf; [|reflexivity].
+    destruct (canon_find_in _ _ _ Hf) as (k' & Hin & Hke).
+    unfold canon_pr in Hc. rewrite Forall_forall in Hc.
+    destruct (Hc _ Hin) as (_ & _ & Hkj). cbn [fst snd] in *. subst k'.
+    apply (key_uniq_plain _ c j k Hk Hke).
+  Qed.
+
+  Lemma opt_tree_plain f st c : plain_at (st_arena st) c ->
+    opt_tree (S (S f)) st c = uniq O st c.
+  Proof.
+    intros [k Hk]. rewrite opt_tree_SP. unfold classify. rewrite Hk.
+    rewrite opt_other_SP, Hk. reflexivity.
+  Qed.
 
   (* the four invariants *)
   Definition arp (a : arena) (res : ost * list (nat * num)) : Prop :=
@@ -967,39 +1258,39 @@ Section OptPure.
     ((exists x y, classify a i = CComm op x y) /\ 4 * i + 1 <= fuel) \/ 4 * i + 4 <= fuel.
 
   Definition Q_tree (fuel : nat) : Prop := forall st i,
-    st_pr st -> lp (st_arena st) i -> 4 * i + 3 <= fuel ->
-    orp (st_arena st) (opt_tree O fuel st i).
+    st_pr st -> lpt (st_arena st) i -> 4 * i + 3 <= fuel ->
+    orp (st_arena st) (opt_tree fuel st i).
   Definition Q_other (fuel : nat) : Prop := forall st i,
-    st_pr st -> lp (st_arena st) i -> 4 * i + 1 <= fuel ->
-    orp (st_arena st) (opt_other O fuel st i).
+    st_pr st -> lpt (st_arena st) i -> 4 * i + 1 <= fuel ->
+    orp (st_arena st) (opt_other fuel st i).
   Definition Q_aff (fuel : nat) : Prop := forall st s i m,
-    st_pr st -> lp (st_arena st) i -> amap_pr (st_arena st) m -> 4 * i + 2 <= fuel ->
-    arp (st_arena st) (opt_affine O fuel st s i m).
+    st_pr st -> lpt (st_arena st) i -> amap_pr (st_arena st) m -> 4 * i + 2 <= fuel ->
+    arp (st_arena st) (opt_affine fuel st s i m).
   Definition Q_comm (fuel : nat) : Prop := forall st op i l,
-    st_pr st -> lp (st_arena st) i -> args op = Some 2 -> cfuel fuel op (st_arena st) i ->
-    crp (st_arena st) l (opt_comm O fuel st op i l).
+    st_pr st -> lpt (st_arena st) i -> args op = Some 2 -> cfuel fuel op (st_arena st) i ->
+    crp (st_arena st) l (opt_comm fuel st op i l).
 
   Lemma arp_trans a a1 res : extends a a1 -> arp a1 res -> arp a res.
   Proof. intros He (H1 & H2 & H3). split; [exact H1|]. split; [eapply extends_trans; eauto | exact H3]. Qed.
 
-  Lemma aff_then_rebuild_pr f st i : Q_aff f -> st_pr st -> lp (st_arena st) i -> 4 * i + 2 <= f ->
+  Lemma aff_then_rebuild_pr f st i : Q_aff f -> st_pr st -> lpt (st_arena st) i -> 4 * i + 2 <= f ->
     orp (st_arena st)
-      (let '(st1, m) := opt_affine O f st (o_one O) i [] in rebuild_affine O st1 m).
+      (let '(st1, m) := opt_affine f st (o_one O) i [] in rebuild_affine O st1 m).
   Proof.
     intros QA Hst Hi Hf. pose proof (QA st (o_one O) i [] Hst Hi (Forall_nil _) Hf) as H1.
-    destruct (opt_affine O f st (o_one O) i []) as [st1 m].
+    destruct (opt_affine f st (o_one O) i []) as [st1 m].
     destruct H1 as (Hst1 & He1 & Hm); cbn [fst snd] in *.
     eapply orp_trans; [exact He1|]. apply rebuild_affine_pr; assumption.
   Qed.
 
-  Lemma comm_then_fold_pr f st op i x y : Q_comm f -> st_pr st -> lp (st_arena st) i ->
+  Lemma comm_then_fold_pr f st op i x y : Q_comm f -> st_pr st -> lpt (st_arena st) i ->
     classify (st_arena st) i = CComm op x y -> args op = Some 2 -> 4 * i + 1 <= f ->
-    orp (st_arena st) (let '(st1, l) := opt_comm O f st op i [] in fold_comm O st1 op l).
+    orp (st_arena st) (let '(st1, l) := opt_comm f st op i [] in fold_comm O st1 op l).
   Proof.
     intros QC Hst Hi Ec Hop Hf.
     assert (Hcf : cfuel f op (st_arena st) i) by (left; split; [exists x, y; exact Ec | exact Hf]).
     pose proof (QC st op i [] Hst Hi Hop Hcf) as H1.
-    destruct (opt_comm O f st op i []) as [st1 l].
+    destruct (opt_comm f st op i []) as [st1 l].
     destruct H1 as (Hst1 & He1 & l2 & Hl & Hne & Hids); cbn [fst snd app] in *. subst l.
     eapply orp_trans; [exact He1|]. apply fold_comm_pr; assumption.
   Qed.
@@ -1014,71 +1305,145 @@ Section OptPure.
     - apply QO; auto. lia.
   Qed.
 
+  (* pushing a transformed oracle over admissible components *)
+  Lemma oracleT_rph a x y z u bx by_ bz bu : arena_wf a -> ob = true -> plain_at a u ->
+    lph bx a x -> lph by_ a y -> lph bz a z -> lph bu a u ->
+    S (Nat.max (Nat.max bx by_) bz) <= M ->
+    rph M a (push a (NOracleT x y z u)).
+  Proof.
+    intros Hwf Hb Hpl (Hx & Px & Bx) (Hy & Py & By) (Hz & Pz & Bz) (Hu & Pu & Bu) HM.
+    apply rph_of.
+    - apply (grp_push_node okids oshape okids_wf oshape_ext); [exact Hwf | cbn [node_wf]; auto | |].
+      + cbn [oshape]. split; [exact Hb|]. apply (plain_extends a); [apply gext_snoc | exact Hu | exact Hpl].
+      + intros k [<-|[<-|[<-|[<-|[]]]]]; assumption.
+    - apply bres_push. cbn [node_bnd]. unfold bnd_of in Bx, By, Bz. lia.
+  Qed.
+
   Lemma other_step_pr f : Q_tree f -> Q_other (S f).
   Proof.
     intros QT st i Hst Hi Hf. rewrite opt_other_SP.
     pose proof (st_pr_wf st Hst) as Hwf.
-    pose proof (kid_lp (st_arena st) i) as Hk.
-    pose proof (proj1 (proj1 (pr_unfold _ _) (proj2 Hi))) as Hsh.
-    pose proof (arena_wf_nth _ i Hwf (proj1 Hi)) as Hnw.
-    destruct (getn (st_arena st) i) as [c|o|o x|o x y|k|x y z u|x y z t|v e t|] eqn:Hn;
-      cbn [pshape node_wf] in *; try contradiction; try (apply uniq_pr; assumption).
+    pose proof (kid_lpt (st_arena st) i) as Hk.
+    pose proof Hi as (Hil & Htp & Hbi).
+    pose proof (tp_shape _ _ Htp) as Hsh.
+    pose proof (arena_wf_nth _ i Hwf Hil) as Hnw.
+    destruct (getn (st_arena st) i) as [c|o0|o0 x|o0 x y|k|x y z u|x y z t|v e t|] eqn:Hn;
+      try (apply uniq_pr; [exact Hst | apply (lpt_leaf M); [exact Hi | rewrite Hn; reflexivity]]; fail);
+      cbn [oshape node_wf] in *; try contradiction.
     - (* unary *)
       destruct (Hk x Hwf Hi (or_introl eq_refl)) as [Hxi Hx].
       destruct Hnw as [_ Hop].
       pose proof (QT st x Hst Hx ltac:(lia)) as H1.
-      destruct (opt_tree O f st x) as [st1 x'].
+      destruct (opt_tree f st x) as [st1 x'].
       destruct H1 as (Hst1 & He1 & Hx'); cbn [fst snd] in *.
-      pose proof (uniq_pr st1 i Hst1 (lp_extends _ _ i Hwf He1 Hi)) as H2.
-      destruct (uniq O st1 i) as [st2 self].
-      destruct H2 as (Hst2 & He2 & Hself); cbn [fst snd] in *.
-      assert (He02 : extends (st_arena st) (st_arena st2)) by (eapply extends_trans; eauto).
-      eapply orp_trans; [exact He02|].
-      destruct (Nat.eqb x' x).
-      + split; [exact Hst2|]. cbn [fst snd]. split; [apply extends_refl | exact Hself].
-      + apply un_uniq_pr; auto. exact (lp_extends _ _ x' (st_pr_wf _ Hst1) He2 Hx').
+      pose proof (extends_length _ _ He1) as Hl1.
+      assert (Hg1 : getn (st_arena st1) i = NUnary o0 x) by (rewrite (extends_getn _ _ i He1 Hil); exact Hn).
+      assert (Hs1 : oshape (st_arena st1) i (getn (st_arena st1) i)) by (rewrite Hg1; exact I).
+      pose proof (uniq_st st1 i Hst1 ltac:(lia) Hs1) as H2.
+      destruct (uniq O st1 i) as [st2 self]. cbn [fst snd] in H2.
+      destruct H2 as (Hst2 & E2 & Hself & Hhp).
+      eapply orp_trans; [exact He1|].
+      destruct (Nat.eqb x' x) eqn:Hxx.
+      + apply Nat.eqb_eq in Hxx. subst x'.
+        assert (Hpi : hp (st_arena st1) i) by (eapply hp_unary; [exact Hg1 | apply Hx']).
+        destruct (Hhp Hpi) as [G1 G2].
+        split; [exact Hst2|]. cbn [fst snd]. rewrite E2. split; [apply extends_refl|].
+        split; [exact Hself|]. split; [exact G1|].
+        rewrite G2, (bnd_extends _ _ i He1 Hil). exact Hbi.
+      + pose proof (un_uniq_pr st2 o0 x' Hst2) as H3. rewrite E2 in H3 |- *. apply H3; auto.
     - (* binary *)
       destruct (Hk x Hwf Hi (or_introl eq_refl)) as [Hxi Hx].
       destruct (Hk y Hwf Hi (or_intror (or_introl eq_refl))) as [Hyi Hy].
       destruct Hnw as (_ & _ & Hop).
       pose proof (QT st y Hst Hy ltac:(lia)) as H1.
-      destruct (opt_tree O f st y) as [st1 y'].
+      destruct (opt_tree f st y) as [st1 y'].
       destruct H1 as (Hst1 & He1 & Hy'); cbn [fst snd] in *.
-      pose proof (QT st1 x Hst1 (lp_extends _ _ x Hwf He1 Hx) ltac:(lia)) as H2.
-      destruct (opt_tree O f st1 x) as [st2 x'].
+      pose proof (QT st1 x Hst1 (lpt_extends _ _ x Hwf He1 Hx) ltac:(lia)) as H2.
+      destruct (opt_tree f st1 x) as [st2 x'].
       destruct H2 as (Hst2 & He2 & Hx'); cbn [fst snd] in *.
       assert (He02 : extends (st_arena st) (st_arena st2)) by (eapply extends_trans; eauto).
-      pose proof (uniq_pr st2 i Hst2 (lp_extends _ _ i Hwf He02 Hi)) as H3.
-      destruct (uniq O st2 i) as [st3 self].
-      destruct H3 as (Hst3 & He3 & Hself); cbn [fst snd] in *.
+      pose proof (extends_length _ _ He02) as Hl2.
+      assert (Hg2 : getn (st_arena st2) i = NBinary o0 x y) by (rewrite (extends_getn _ _ i He02 Hil); exact Hn).
+      assert (Hs2 : oshape (st_arena st2) i (getn (st_arena st2) i)) by (rewrite Hg2; exact I).
+      pose proof (uniq_st st2 i Hst2 ltac:(lia) Hs2) as H3.
+      destruct (uniq O st2 i) as [st3 self]. cbn [fst snd] in H3.
+      destruct H3 as (Hst3 & E3 & Hself & Hhp).
+      pose proof (lp_extends _ _ y' (st_pr_wf _ Hst1) He2 Hy') as Hy2.
+      eapply orp_trans; [exact He02|].
+      destruct (Nat.eqb x' x && Nat.eqb y' y) eqn:Hxx.
+      + apply andb_true_iff in Hxx. destruct Hxx as [E1 E2'].
+        apply Nat.eqb_eq in E1, E2'. subst x' y'.
+        assert (Hpi : hp (st_arena st2) i) by (eapply hp_binary; [exact Hg2 | apply Hx' | apply Hy2]).
+        destruct (Hhp Hpi) as [G1 G2].
+        split; [exact Hst3|]. cbn [fst snd]. rewrite E3. split; [apply extends_refl|].
+        split; [exact Hself|]. split; [exact G1|].
+        rewrite G2, (bnd_extends _ _ i He02 Hil). exact Hbi.
+      + pose proof (bin_uniq_pr st3 o0 x' y' Hst3) as H4. rewrite E3 in H4 |- *. apply H4; auto.
+    - (* transformed oracle: the four components go through [coord] *)
+      destruct Hnw as (Hxi & Hyi & Hzi & Hui).
+      destruct (proj2 Htp i x y z u (greach_root _ _ _) Hn) as (Cx & Cy & Cz & Cu).
+      pose proof (bnd_oracleT _ i x y z u Hwf Hil Hn) as Hbn.
+      assert (Hs0 : oshape (st_arena st) i (getn (st_arena st) i)) by (rewrite Hn; exact Hsh).
+      destruct Hsh as [Hob Hpl].
+      pose proof (uniq_st st i Hst Hil Hs0) as H0.
+      destruct (uniq O st i) as [st0 self]. cbn [fst snd] in H0.
+      destruct H0 as (Hst0 & E0 & _ & _).
+      pose proof (coord_pr st0 u Hst0) as H1. rewrite E0 in H1.
+      specialize (H1 ltac:(lia) Cu).
+      destruct (coord st0 u) as [st1 u']. cbn [fst snd] in H1.
+      destruct H1 as (Hst1 & He1 & Hu' & Pu & Bu & Eu). specialize (Eu Hpl). subst u'.
+      pose proof (extends_length _ _ He1) as Hl1.
+      pose proof (coord_pr st1 x Hst1 ltac:(lia) (cp_ext _ _ x Hwf He1 ltac:(lia) Cx)) as H2.
+      destruct (coord st1 x) as [st2 x']. cbn [fst snd] in H2.
+      destruct H2 as (Hst2 & He2 & Hx' & Px & Bx & _).
+      pose proof (extends_length _ _ He2) as Hl2.
+      assert (He02 : extends (st_arena st) (st_arena st2)) by (eapply extends_trans; eauto).
+      pose proof (coord_pr st2 y Hst2 ltac:(lia) (cp_ext _ _ y Hwf He02 ltac:(lia) Cy)) as H3.
+      destruct (coord st2 y) as [st3 y']. cbn [fst snd] in H3.
+      destruct H3 as (Hst3 & He3 & Hy' & Py & By & _).
+      pose proof (extends_length _ _ He3) as Hl3.
       assert (He03 : extends (st_arena st) (st_arena st3)) by (eapply extends_trans; eauto).
-      assert (He13 : extends (st_arena st1) (st_arena st3)) by (eapply extends_trans; eauto).
-      eapply orp_trans; [exact He03|].
-      destruct (Nat.eqb x' x && Nat.eqb y' y).
-      + split; [exact Hst3|]. cbn [fst snd]. split; [apply extends_refl | exact Hself].
-      + apply bin_uniq_pr; auto.
-        * exact (lp_extends _ _ x' (st_pr_wf _ Hst2) He3 Hx').
-        * exact (lp_extends _ _ y' (st_pr_wf _ Hst1) He13 Hy').
+      pose proof (coord_pr st3 z Hst3 ltac:(lia) (cp_ext _ _ z Hwf He03 ltac:(lia) Cz)) as H4.
+      destruct (coord st3 z) as [st4 z']. cbn [fst snd] in H4.
+      destruct H4 as (Hst4 & He4 & Hz' & Pz & Bz & _).
+      pose proof (extends_length _ _ He4) as Hl4.
+      assert (He04 : extends (st_arena st) (st_arena st4)) by (eapply extends_trans; eauto).
+      assert (He14 : extends (st_arena st1) (st_arena st4))
+        by (eapply extends_trans; [|exact He4]; eapply extends_trans; eauto).
+      assert (He24 : extends (st_arena st2) (st_arena st4)) by (eapply extends_trans; eauto).
+      rewrite (bnd_extends _ _ x He1) in Bx by lia.
+      rewrite (bnd_extends _ _ y He02) in By by lia.
+      rewrite (bnd_extends _ _ z He03) in Bz by lia.
+      eapply orp_trans; [exact He04|].
+      apply lift_uniq_pr; [exact Hst4|].
+      apply (oracleT_rph _ x' y' z' u (bnd_of (st_arena st) x) (bnd_of (st_arena st) y)
+                         (bnd_of (st_arena st) z) (bnd_of (st_arena st) u));
+        [apply Hst4 | exact Hob | apply (plain_extends (st_arena st)); [exact He04 | lia | exact Hpl]
+         | | | | | lia].
+      + apply (lph_extends _ (st_arena st2)); [apply Hst2 | exact He24|]. repeat split; assumption.
+      + apply (lph_extends _ (st_arena st3)); [apply Hst3 | exact He4|]. repeat split; assumption.
+      + repeat split; assumption.
+      + apply (lph_extends _ (st_arena st1)); [apply Hst1 | exact He14|]. repeat split; assumption.
   Qed.
 
   Lemma aff_two_pr f st s1 s2 x y m : Q_aff f -> st_pr st ->
-    lp (st_arena st) x -> lp (st_arena st) y -> amap_pr (st_arena st) m ->
+    lpt (st_arena st) x -> lpt (st_arena st) y -> amap_pr (st_arena st) m ->
     4 * x + 2 <= f -> 4 * y + 2 <= f ->
-    arp (st_arena st) (let '(st1, m1) := opt_affine O f st s2 y m in opt_affine O f st1 s1 x m1).
+    arp (st_arena st) (let '(st1, m1) := opt_affine f st s2 y m in opt_affine f st1 s1 x m1).
   Proof.
     intros QA Hst Hx Hy Hm Hfx Hfy.
     pose proof (QA st s2 y m Hst Hy Hm Hfy) as H1.
-    destruct (opt_affine O f st s2 y m) as [st1 m1].
+    destruct (opt_affine f st s2 y m) as [st1 m1].
     destruct H1 as (Hst1 & He1 & Hm1); cbn [fst snd] in *.
     eapply arp_trans; [exact He1|]. apply QA; auto.
-    exact (lp_extends _ _ x (st_pr_wf _ Hst) He1 Hx).
+    exact (lpt_extends _ _ x (st_pr_wf _ Hst) He1 Hx).
   Qed.
 
   Lemma aff_step_pr f : Q_aff f -> Q_comm f -> Q_other f -> Q_aff (S f).
   Proof.
     intros QA QC QO st s i m Hst Hi Hm Hf. rewrite opt_affine_SP.
     pose proof (st_pr_wf st Hst) as Hwf.
-    pose proof (kid_lp (st_arena st) i) as Hk.
+    pose proof (kid_lpt (st_arena st) i) as Hk.
     pose proof (classify_kids (st_arena st) i) as Hc. revert Hc.
     destruct (classify (st_arena st) i) as [x|x y|x y|c y|x c|x c|op x y|] eqn:Ec; intros Hc.
     - destruct (Hk x Hwf Hi Hc). apply QA; auto; lia.
@@ -1091,23 +1456,23 @@ Section OptPure.
     - destruct (Hk x Hwf Hi Hc). apply QA; auto; lia.
     - destruct Hc as (Hop & _).
       pose proof (comm_then_fold_pr f st op i x y QC Hst Hi Ec Hop ltac:(lia)) as H1.
-      destruct (opt_comm O f st op i []) as [st1 l].
+      destruct (opt_comm f st op i []) as [st1 l].
       destruct (fold_comm O st1 op l) as [st2 n].
       destruct H1 as (Hst2 & He2 & Hn); cbn [fst snd] in *.
       split; [exact Hst2|]. cbn [fst snd]. split; [exact He2|].
       apply add_term_pr; auto. exact (amap_pr_extends _ _ m Hwf He2 Hm).
     - pose proof (QO st i Hst Hi ltac:(lia)) as H1.
-      destruct (opt_other O f st i) as [st1 n].
+      destruct (opt_other f st i) as [st1 n].
       destruct H1 as (Hst1 & He1 & Hn); cbn [fst snd] in *.
       split; [exact Hst1|]. cbn [fst snd]. split; [exact He1|].
       apply add_term_pr; auto. exact (amap_pr_extends _ _ m Hwf He1 Hm).
   Qed.
 
-  Lemma comm_leaf_pr f st i l : Q_tree f -> st_pr st -> lp (st_arena st) i -> 4 * i + 3 <= f ->
-    crp (st_arena st) l (let '(st1, n) := opt_tree O f st i in (st1, l ++ [n])).
+  Lemma comm_leaf_pr f st i l : Q_tree f -> st_pr st -> lpt (st_arena st) i -> 4 * i + 3 <= f ->
+    crp (st_arena st) l (let '(st1, n) := opt_tree f st i in (st1, l ++ [n])).
   Proof.
     intros QT Hst Hi Hf. pose proof (QT st i Hst Hi Hf) as H1.
-    destruct (opt_tree O f st i) as [st1 n].
+    destruct (opt_tree f st i) as [st1 n].
     destruct H1 as (Hst1 & He1 & Hn); cbn [fst snd] in *.
     split; [exact Hst1|]. cbn [fst snd]. split; [exact He1|].
     exists [n]. split; [reflexivity|]. split; [discriminate|]. constructor; [exact Hn | constructor].
@@ -1117,10 +1482,10 @@ Section OptPure.
   Proof.
     intros QT QC st op i l Hst Hi Hop Hcf. rewrite opt_comm_SP.
     pose proof (st_pr_wf st Hst) as Hwf.
-    pose proof (kid_lp (st_arena st) i) as Hk.
+    pose proof (kid_lpt (st_arena st) i) as Hk.
     pose proof (classify_kids (st_arena st) i) as Hc. revert Hc.
     assert (Hleaf : (forall x y, classify (st_arena st) i <> CComm op x y) ->
-                    crp (st_arena st) l (let '(st1, n) := opt_tree O f st i in (st1, l ++ [n]))).
+                    crp (st_arena st) l (let '(st1, n) := opt_tree f st i in (st1, l ++ [n]))).
     { intros Hne. apply comm_leaf_pr; auto. destruct Hcf as [[(x & y & E) _]|H]; [|lia].
       exfalso; eapply Hne; eauto. }
     destruct (classify (st_arena st) i) as [x|x y|x y|c y|x c|x c|op' x y|] eqn:Ec; intros Hc;
@@ -1132,11 +1497,11 @@ Section OptPure.
       assert (Hf : 4 * i <= f) by (destruct Hcf as [[_ H]|H]; lia).
       assert (Hcy : cfuel f op (st_arena st) y) by (right; lia).
       pose proof (QC st op y l Hst Hyp Hop Hcy) as H1.
-      destruct (opt_comm O f st op y l) as [st1 l1].
+      destruct (opt_comm f st op y l) as [st1 l1].
       destruct H1 as (Hst1 & He1 & ly & Hl1 & Hney & Hidy); cbn [fst snd] in *.
       assert (Hcx : cfuel f op (st_arena st1) x) by (right; lia).
-      pose proof (QC st1 op x l1 Hst1 (lp_extends _ _ x Hwf He1 Hxp) Hop Hcx) as H2.
-      destruct (opt_comm O f st1 op x l1) as [st2 l2'].
+      pose proof (QC st1 op x l1 Hst1 (lpt_extends _ _ x Hwf He1 Hxp) Hop Hcx) as H2.
+      destruct (opt_comm f st1 op x l1) as [st2 l2'].
       destruct H2 as (Hst2 & He2 & lx & Hl2 & Hnex & Hidx); cbn [fst snd] in *.
       split; [exact Hst2|]. cbn [fst snd]. split; [eapply extends_trans; eauto|].
       exists (ly ++ lx). split; [subst; rewrite app_assoc; reflexivity|].
@@ -1161,41 +1526,107 @@ Section OptPure.
       + apply comm_step_pr; assumption.
   Qed.
 
+  Theorem opt_tree_pr : forall fuel st i,
+    st_pr st -> lpt (st_arena st) i -> 4 * i + 3 <= fuel ->
+    orp (st_arena st) (opt_tree fuel st i).
+  Proof. intros fuel. apply (opt_all_pr fuel). Qed.
+  End WithM.
+End OptPure.
+
+(* ------------------------------------------------------------------ *)
+(* the oracle-free instance ([b = false]): pure-reaching in, pure-reaching out *)
+Section OptPureFree.
+  Context {num : Type} (O : ops num).
+  Notation node := (node num).
+  Notation arena := (arena num).
+  Notation ost := (@ost num).
+
+  Lemma pshape_oshape (a : arena) m (n : node) : pshape m n <-> oshape false true a m n.
+  Proof.
+    destruct n as [c|o|o x|o x y|k|x y z u|x y z t|v e t|]; cbn; try tauto.
+    - destruct o; tauto.
+    - split; [contradiction | discriminate].
+    - split; [contradiction | intros [H _]; discriminate H].
+  Qed.
+
+  Lemma pr_kp (a : arena) j : pr a j -> kp false true a j.
+  Proof.
+    apply (all_ok_change kids kids (fun _ => pshape) (oshape false true)).
+    intros a0 m n H. split; [apply pshape_oshape; exact H | apply incl_refl].
+  Qed.
+
+  Lemma hp_pr (a : arena) j : hp false true a j -> pr a j.
+  Proof.
+    apply (all_ok_change okids kids (oshape false true) (fun _ => pshape)).
+    intros a0 m n H. split; [apply (pshape_oshape a0); exact H | apply kids_okids].
+  Qed.
+
+  (* no transformed oracle is ever met: [coord] is never called *)
+  Definition cp0 : arena -> nat -> Prop := fun _ _ => False.
+
+  Lemma pr_tp (a : arena) j : pr a j -> tp false true cp0 a j.
+  Proof.
+    intros H. split; [apply pr_kp; exact H|].
+    intros m x y z u Hm Hn. exfalso.
+    pose proof (pr_kp a j H m Hm) as Hs. rewrite Hn in Hs. destruct Hs as [Hs _]. discriminate Hs.
+  Qed.
+
   (* 2. the node returned by opt_tree only reaches plain nodes *)
-  Theorem opt_reach_pure : forall fuel st i,
-    st_pr st -> i < length (st_arena st) ->
+  Theorem opt_reach_pure : forall coord fuel st i,
+    st_pr O false true (st_oof st) st -> i < length (st_arena st) ->
     (forall m, reach (st_arena st) i m -> pure_at (st_arena st) m) ->
     4 * i + 3 <= fuel ->
-    let '(st', j) := opt_tree O fuel st i in
-    st_pr st' /\ extends (st_arena st) (st_arena st') /\ j < length (st_arena st') /\
+    let '(st', j) := opt_tree O coord fuel st i in
+    st_pr O false true (st_oof st) st' /\ extends (st_arena st) (st_arena st') /\ j < length (st_arena st') /\
     forall m, reach (st_arena st') j m -> pure_at (st_arena st') m.
   Proof.
-    intros fuel st i Hst Hi Hp Hf.
-    destruct (opt_all_pr fuel) as (QT & _).
-    assert (Hlp : lp (st_arena st) i) by (split; [exact Hi | apply pr_spec; exact Hp]).
-    pose proof (QT st i Hst Hlp Hf) as H.
-    destruct (opt_tree O fuel st i) as [st' j].
-    destruct H as (H1 & H2 & H3 & H4); cbn [fst snd] in *.
-    split; [exact H1|]. split; [exact H2|]. split; [exact H3|]. apply pr_spec; exact H4.
+    intros coord fuel st i Hst Hi Hp Hf.
+    assert (Hlp : lpt false true cp0 (bnd_of (st_arena st) i) (st_arena st) i).
+    { split; [exact Hi|]. split; [apply pr_tp; apply pr_spec; exact Hp | lia]. }
+    pose proof (opt_tree_pr O false true (st_oof st) cp0 (fun _ _ _ _ _ _ H => H)
+                  (bnd_of (st_arena st) i) coord
+                  (fun st0 c _ _ (F : cp0 (st_arena st0) c) => match F with end)
+                  fuel st i Hst Hlp Hf) as H.
+    destruct (opt_tree O coord fuel st i) as [st' j].
+    destruct H as (H1 & H2 & H3 & H4 & _); cbn [fst snd] in *.
+    split; [exact H1|]. split; [exact H2|]. split; [exact H3|]. apply pr_spec. apply hp_pr. exact H4.
+  Qed.
+
+  (* Tree::optimized_helper on a state, any [coord] *)
+  Lemma helper_with_pr coord st i :
+    st_pr O false true (st_oof st) st -> i < length (st_arena st) -> src_ok (st_arena st) i ->
+    let res := helper_with O coord st i in
+    st_pr O false true (st_oof st) (fst res) /\ extends (st_arena st) (st_arena (fst res)) /\
+    lp (st_arena (fst res)) (snd res).
+  Proof.
+    intros Hst Hi Hs. destruct Hst as (Hwf & Hb & Hc & Ho). unfold helper_with.
+    pose proof (flatten_rp O _ i Hwf Hb Hi Hs) as H1.
+    destruct (flatten O (st_arena st) i) as [a1 j].
+    destruct H1 as (He1 & Hwf1 & Hj & Hp1); cbn [fst snd] in *.
+    set (st1 := {| st_arena := a1; st_canon := st_canon st; st_oof := st_oof st |}).
+    assert (Hst1 : st_pr O false true (st_oof st) st1).
+    { split; [exact Hwf1|]. split; [|split]; cbn [st1 st_arena st_canon st_oof].
+      - eapply base_ok_extends; eauto.
+      - exact (canon_pr_extends O false true _ _ _ Hwf He1 Hc).
+      - reflexivity. }
+    assert (Hf : 4 * j + 3 <= opt_fuel j) by (unfold opt_fuel; lia).
+    pose proof (opt_reach_pure coord (opt_fuel j) st1 j Hst1 Hj (proj1 (pr_spec a1 j) Hp1) Hf) as H2.
+    destruct (opt_tree O coord (opt_fuel j) st1 j) as [st' j'].
+    cbn [st1 st_arena st_oof] in H2. destruct H2 as (G1 & G2 & G3 & G4). cbn [fst snd].
+    split; [exact G1|]. split; [eapply extends_trans; eauto|].
+    split; [exact G3 | apply pr_spec; exact G4].
   Qed.
 
   Theorem optimized_helper_pr a c i :
-    arena_wf a -> base_ok O a -> canon_pr a c -> i < length a -> src_ok a i ->
-    orp a (optimized_helper O a c i).
+    arena_wf a -> base_ok O a -> canon_pr O false true a c -> i < length a -> src_ok a i ->
+    let res := optimized_helper O a c i in
+    st_pr O false true false (fst res) /\ extends a (st_arena (fst res)) /\
+    lp (st_arena (fst res)) (snd res).
   Proof.
-    intros Hwf Hb Hc Hi Hs. unfold optimized_helper.
-    pose proof (flatten_rp O a i Hwf Hb Hi Hs) as H1.
-    destruct (flatten O a i) as [a1 j].
-    destruct H1 as (He1 & Hwf1 & Hj & Hp1); cbn [fst snd] in *.
-    set (st := {| st_arena := a1; st_canon := c |}).
-    assert (Hst : st_pr st).
-    { split; [exact Hwf1|]. split; cbn [st st_arena st_canon].
-      - eapply base_ok_extends; eauto.
-      - exact (canon_pr_extends _ _ _ Hwf He1 Hc). }
-    destruct (opt_all_pr (opt_fuel j)) as (QT & _).
-    assert (Hf : 4 * j + 3 <= opt_fuel j) by (unfold opt_fuel; lia).
-    pose proof (QT st j Hst (conj Hj Hp1) Hf) as H2. cbn [st st_arena] in H2.
-    eapply orp_trans; [exact He1 | exact H2].
+    intros Hwf Hb Hc Hi Hs. unfold optimized_helper, optimized_helper_lvl.
+    apply (helper_with_pr (coord_lvl O (lvl_fuel a i))
+             {| st_arena := a; st_canon := c; st_oof := false |}); auto.
+    split; [exact Hwf|]. split; [exact Hb|]. split; [exact Hc | reflexivity].
   Qed.
 
   (* 3. Tree::optimized *)
@@ -1203,7 +1634,7 @@ Section OptPure.
     arena_wf a -> base_ok O a -> i < length a -> src_ok a i ->
     let '(a', j) := optimized O a i in forall m, reach a' j m -> pure_at a' m.
   Proof.
-    intros Hwf Hb Hi Hs. unfold optimized.
+    intros Hwf Hb Hi Hs. unfold optimized, optimized_full.
     pose proof (optimized_helper_pr a [] i Hwf Hb (Forall_nil _) Hi Hs) as H.
     destruct (optimized_helper O a [] i) as [st j].
     destruct H as (_ & _ & _ & H); cbn [fst snd] in *. apply pr_spec; exact H.
@@ -1216,14 +1647,25 @@ Section OptPure.
     extends a a' /\ arena_wf a' /\ base_ok O a' /\ j < length a' /\
     forall m, reach a' j m -> pure_at a' m.
   Proof.
-    intros Hwf Hb Hi Hs. unfold optimized.
+    intros Hwf Hb Hi Hs. unfold optimized, optimized_full.
     pose proof (optimized_helper_pr a [] i Hwf Hb (Forall_nil _) Hi Hs) as H.
     destruct (optimized_helper O a [] i) as [st j].
     destruct H as ((H1 & H2 & _) & H3 & H4 & H5); cbn [fst snd] in *.
     split; [exact H3|]. split; [exact H1|]. split; [exact H2|]. split; [exact H4|].
     apply pr_spec; exact H5.
   Qed.
-End OptPure.
+
+  (* the flag is never raised on oracle-free sources *)
+  Theorem optimized_full_flag_src a i :
+    arena_wf a -> base_ok O a -> i < length a -> src_ok a i ->
+    snd (optimized_full O a i) = false.
+  Proof.
+    intros Hwf Hb Hi Hs. unfold optimized_full.
+    pose proof (optimized_helper_pr a [] i Hwf Hb (Forall_nil _) Hi Hs) as H.
+    destruct (optimized_helper O a [] i) as [st j]. cbn [fst snd] in *.
+    destruct H as ((_ & _ & _ & Ho) & _). exact Ho.
+  Qed.
+End OptPureFree.
 
 Print Assumptions flatten_reach_pure.
 Print Assumptions opt_reach_pure.
